@@ -167,6 +167,34 @@ C12_Residual(g, alpha, dt, old, A, gamma, r) ==
 C12_ExplicitStep(g, dt, inp, rhs, r) ==
   \A P \in Interior(g) : r[P] = RAdd(inp[P], RMul(dt, rhs[P]))
 
+-----------------------------------------------------------------------------
+(* C17 - dimensional homogeneity.  Physical dimension of every output as exponents
+   <<length, time, field>>; rescaling the inputs by (L, T, K) according to their dimensions
+   must rescale each output by exactly L^l T^t K^k.                                        *)
+VolumeLengthPower(cls) ==
+  CASE cls = "Grid1D" -> 1 [] cls = "CylindricalGrid1D" -> 2 [] cls = "SphericalGrid1D" -> 3
+    [] cls = "Grid2D" -> 2 [] cls = "CylindricalGrid2D" -> 3 [] cls = "PolarGrid2D" -> 2
+    [] OTHER -> 3
+OutputDim(cls, name) ==
+  CASE name \in {"Mdiff", "Mconv", "Mup", "Mupalt", "Msrc", "Mtrans", "divu"} -> <<0, -1, 0>>
+    [] name \in {"Rsrc", "Rtrans", "tvd"} -> <<0, -1, 1>>
+    [] name = "Mbc" -> <<0, 0, 0>>
+    [] name \in {"Rbc", "ghost", "linmean", "arithmean", "harmmean", "upmean", "solution"} -> <<0, 0, 1>>
+    [] name = "volume" -> <<VolumeLengthPower(cls), 0, 0>>
+\* integer power with negative exponents
+RPowZ(a, k) == IF k >= 0 THEN RPow(a, k) ELSE RInv(RPow(a, -k))
+ScaleFactor(dim, L, T, K) == RMul(RMul(RPowZ(L, dim[1]), RPowZ(T, dim[2])), RPowZ(K, dim[3]))
+C17_MatScaled(M, Ms, f) ==
+  /\ DOMAIN M = DOMAIN Ms
+  /\ \A p \in DOMAIN M : Ms[p] = RMul(f, M[p])
+C17_VecScaled(v, vs, f) == \A c \in DOMAIN v : vs[c] = RMul(f, v[c])
+\* the gradient has length dimension -1 along length-like axes and 0 along angles
+C17_GradScaled(g, gr, grs, L, K) ==
+  \A id \in DOMAIN gr :
+     grs[id] = RMul(RMul(K, IF IsAngular(g.cls, id[1]) THEN RInv(L) ELSE RInv(L)), gr[id])
+\* linearity in the coefficient field:  Op(lam*C1 + mu*C2) = lam*Op(C1) + mu*Op(C2)
+C17_MatLinear(M1, M2, M12, lam, mu) == M12 = MAdd(MScale(lam, M1), MScale(mu, M2))
+
 \* the reference mesh record (what the documentation promises)
 RefMesh(g) ==
   [dims        |-> Dims(g),
